@@ -3,7 +3,7 @@ CONSTANTS
   MaxLen = 14
   MaxDepth = 4
   Conds = {"T", "F", "D", "N", "V", "U", "R", "H", "J"}
-  Kinds = {"if", "elif", "ifdef", "ifndef", "elifdef", "elifndef", "else", "endif", "text", "def0", "def1", "undef", "warn", "err", "inc", "inc2", "push", "pop"}
+  Kinds = {"if", "elif", "ifdef", "ifndef", "elifdef", "elifndef", "else", "endif", "text", "def0", "def1", "undef", "warn", "err", "inc", "inc2", "push", "pop", "noise"}
   MinDump = 9
 INVARIANT Refines
 INVARIANT ClosedNormal
